@@ -552,7 +552,57 @@ pub fn h_try_map_with<M: VMode, Er: VEr>() {
     });
 }
 
+/// Ordered choice over a slice / array / Vec of alternatives (a loop): bounded to 3 alternatives.
+pub fn h_choice_arr<M: VMode, Er: VEr, const KIND: usize>() {
+    run::<u8, Er, (), _>(|inp, s0| {
+        let anyp = |k| anyp::<SymIn<u8>, X<Er>>(k);
+        let alts = [anyp(0), anyp(1), anyp(2)];
+        let r = match KIND {
+            0 => choice(alts).go::<M>(inp),
+            1 => choice(&alts[..]).go::<M>(inp),
+            _ => choice(alts.to_vec()).go::<M>(inp),
+        };
+        let s = snap(inp);
+        let (a, b, c) = (lg(inp, 0), lg(inp, 1), lg(inp, 2));
+        let (v, chosen) = choice_spec(&s0, &s, &[(0, a), (1, b), (2, c)], r.is_ok(), Er::ZST);
+        choice_asserts!("choice_dyn", v);
+        let out = match chosen {
+            Some(0) => a.out,
+            Some(1) => b.out,
+            _ => c.out,
+        };
+        if chosen.is_some() {
+            vassert!(ok_with::<M, _>(&r, out), "C01/choice_dyn.output-of-first-succeeding-alternative");
+        }
+        vcover!(chosen == Some(2), "choice_dyn: third alternative chosen");
+        vcover!(chosen.is_none(), "choice_dyn: all fail");
+        if !Er::ZST {
+            vassert!(Offers::of(&s0, &[&a, &b, &c]).matches(&s), "C06/choice_dyn.pending-error-is-furthest-offer");
+        }
+    });
+}
+/// The empty dynamic choice fails without consuming and leaves an error.
+pub fn h_choice_empty<M: VMode>() {
+    run::<u8, VS, (), _>(|inp, s0| {
+        let alts: [AnyP<SymIn<u8>, X<VS>>; 0] = [];
+        let r = choice(&alts[..]).go::<M>(inp);
+        let s = snap(inp);
+        vcover!(true, "choice_dyn: empty");
+        vassert!(r.is_err() && s.pos == s0.pos && s.nsec == s0.nsec, "C01/choice_dyn.empty-choice-fails-consuming-nothing");
+        vassert!(s.alt.is_some(), "C20/choice_dyn.empty-choice-leaves-pending-error");
+    });
+}
+
 harnesses! {
+    #[kani::unwind(5)]
+    choice_array_emit_b3 = h_choice_arr::<Emit, VS, 0>;
+    #[kani::unwind(5)]
+    choice_array_check_b3 = h_choice_arr::<Check, VS, 0>;
+    #[kani::unwind(5)]
+    choice_slice_emit_b3 = h_choice_arr::<Emit, VS, 1>;
+    #[kani::unwind(5)]
+    choice_vec_emit_b3_t = h_choice_arr::<Emit, VS, 2>;
+    choice_empty_emit = h_choice_empty::<Emit>;
     group2_emit = h_group2::<Emit, VErr>;
     group2_check = h_group2::<Check, VErr>;
     group3_emit = h_group3::<Emit, VErr>;
